@@ -144,6 +144,14 @@ func (o *C17) afterSetKeys(w *World, r *TxResult) {
 	chain := m.ChainId
 	km := w.keyModelOf(chain)
 	extA := parse20(m.ExternalAddress)
+	// identities, not spellings: bech32 is admissible in all-upper case too, and names the same account
+	orchID, valID := m.OrchestratorAddress, m.ValidatorAddress
+	if a, err := sdk.AccAddressFromBech32(m.OrchestratorAddress); err == nil {
+		orchID = a.String()
+	}
+	if a, err := sdk.ValAddressFromBech32(m.ValidatorAddress); err == nil {
+		valID = a.String()
+	}
 	w.St.Check("C17:accept-model")
 	w.St.Probe("nontrivial")
 	// --- the statement's acceptance rule
@@ -164,7 +172,7 @@ func (o *C17) afterSetKeys(w *World, r *TxResult) {
 		}
 		for e, oaddr := range km.extOrch {
 			_ = e
-			if oaddr == m.OrchestratorAddress && reason == "" {
+			if oaddr == orchID && reason == "" {
 				reason = "orchestrator already bound"
 			}
 		}
@@ -172,7 +180,7 @@ func (o *C17) afterSetKeys(w *World, r *TxResult) {
 	if reason == "" {
 		// signature of the external key over (validator, sequence number of the registering tx)
 		seq, _ := strconv.ParseUint(r.Tx.Meta["seq"], 10, 64)
-		sm := mhub2types.DelegateKeysSignMsg{ValidatorAddress: m.ValidatorAddress, Nonce: seq}
+		sm := mhub2types.DelegateKeysSignMsg{ValidatorAddress: valID, Nonce: seq}
 		bz, _ := sm.Marshal()
 		sig, ok := ext.SigFromBytes(m.EthSignature)
 		if !ok || !ext.VerifySig(extA, ext.Keccak(bz), sig) {
@@ -190,9 +198,9 @@ func (o *C17) afterSetKeys(w *World, r *TxResult) {
 		return
 	}
 	if got {
-		km.orchVal[m.OrchestratorAddress] = m.ValidatorAddress
-		km.valExt[m.ValidatorAddress] = extA
-		km.extOrch[extA] = m.OrchestratorAddress
+		km.orchVal[orchID] = valID
+		km.valExt[valID] = extA
+		km.extOrch[extA] = orchID
 		w.St.Probe("registration-accepted")
 		if _, re := r.Tx.Meta["op"]; re && r.Tx.Meta["op"] == "fresh" {
 			w.St.Probe("re-registration")
